@@ -9,7 +9,7 @@ from common import Cmat, Cx, R, Rmat, cfl, fl, flmat, max_rel_err
 
 from common import wiring_pre_build as pre_build  # noqa: E402,F401
 
-LEAN_MODULES = ["PyomaVerif.Props.C01", "PyomaVerif.Props.WiringRun", "PyomaVerif.Props.C01C11"]
+LEAN_MODULES = ["PyomaVerif.Props.C01", "PyomaVerif.Props.WiringRun", "PyomaVerif.Props.C01C11", "PyomaVerif.Props.C01E2E"]
 THEOREMS = [
     # call-site wiring of the class layer, regenerated from /repo on every run (translate_wiring.py)
     "PV.WiringRun.C12_run_build_hank",
@@ -28,6 +28,27 @@ THEOREMS = [
     "PV.C01.freevib_hankel_factor",
     "PV.C01.pole_recovery",
     "PV.C01C11.C01_extract",
+    # end to end: record -> Hankel -> realisation -> poles/shapes -> extraction (Props/C01E2E.lean, Lemmas/FreeVib.lean)
+    "PV.FreeVib.hankMM_factor",
+    "PV.FreeVib.hankYf_factor",
+    "PV.FreeVib.hankDat_factor",
+    "PV.FreeVib.rank_factor_unique_lr",
+    "PV.FreeVib.svd_split",
+    "PV.FreeVib.svd_rank_count",
+    "PV.FreeVib.obs_left_inv_extend",
+    "PV.FreeVib.realised_of_factor",
+    "PV.FreeVib.realised_of_factor_rank",
+    "PV.FreeVib.shape_exact",
+    "PV.FreeVib.lamC_exp",
+    "PV.FreeVib.fn_xi_of_modal",
+    "PV.FreeVib.normalise_conj",
+    "PV.C01E2E.recovered_of_similar",
+    "PV.C01E2E.C01_e2e_cov",
+    "PV.C01E2E.C01_e2e_dat",
+    "PV.C01E2E.Mode.conj",
+    "PV.C01E2E.C01_pole_pair",
+    "PV.C01E2E.Ex.recovered",
+    "PV.C01E2E.ExDat.recovered",
 ]
 RULE = (
     "correspondence: ssi.SSI_fast, ssi.SSI, ssi.ac2mp and the SSI_poles table pattern vs the Lean model, the LAPACK results "
@@ -269,6 +290,20 @@ def oracle(ctx, scale):
                 ctx.oracle_cases += 1
                 tag = f"class-{alg.name}"
                 cinp = inp | {"class": type(alg).__name__, "ordmax": alg.run_params.ordmax}
+                if rng.random() < 0.5:
+                    # looking at the result (a zoomed stabilisation chart, the cluster chart) between run and extraction is a
+                    # read-only operation: what is identified afterwards must not depend on it
+                    import matplotlib.pyplot as plt
+
+                    lo_f = float(np.min(S.fn)) * rng.uniform(1.02, 1.2)
+                    band = (lo_f, S.fs / 2 * rng.uniform(0.5, 0.9)) if S.m > 1 else (lo_f, S.fs / 2)
+                    try:
+                        alg.plot_stab(freqlim=band, hide_poles=rng.random() < 0.5)
+                        alg.plot_cluster(freqlim=band)
+                    finally:
+                        plt.close("all")
+                    cinp = cinp | {"viewed_before_extraction": list(band)}
+                    ctx.count("class_result_viewed_before_extraction")
                 if not _check_poles(ctx, tag, res.Fn_poles[:, m2], res.Xi_poles[:, m2], res.Phi_poles[:, m2, :], res.Lambds[:, m2], S, cinp):
                     return
                 order = np.argsort(S.fn)
